@@ -72,7 +72,7 @@ theorem provUnassign_quiet (s : State) (node : String) (ip : IP) : QuietStep s (
   · exact QuietStep.refl s
   · split
     · exact QuietStep.refl s
-    · exact ⟨⟨rfl, rfl, rfl, rfl, rfl, rfl, rfl, rfl, rfl, rfl, rfl, rfl, rfl, rfl, Nat.le_refl _⟩, rfl, rfl, rfl⟩
+    · exact ⟨⟨rfl, rfl, rfl, rfl, rfl, rfl, rfl, rfl, rfl, rfl, rfl, rfl, rfl, rfl, Nat.le_refl _, rfl⟩, rfl, rfl, rfl⟩
 
 theorem provUnassign_log (s : State) (node : String) (ip : IP) :
     UnassignsWithin s (provUnassign s node ip).1 (fun j => j = ip) := by
@@ -90,7 +90,7 @@ theorem provAssign_quiet (s : State) (node : String) (ip : IP) : QuietStep s (pr
   · exact QuietStep.refl s
   · split
     · exact QuietStep.refl s
-    · exact ⟨⟨rfl, rfl, rfl, rfl, rfl, rfl, rfl, rfl, rfl, rfl, rfl, rfl, rfl, rfl, Nat.le_refl _⟩, rfl, rfl, rfl⟩
+    · exact ⟨⟨rfl, rfl, rfl, rfl, rfl, rfl, rfl, rfl, rfl, rfl, rfl, rfl, rfl, rfl, Nat.le_refl _, rfl⟩, rfl, rfl, rfl⟩
 
 theorem provAssign_log (s : State) (node : String) (ip : IP) (ips : IP → Prop) :
     UnassignsWithin s (provAssign s node ip).1 ips := by
